@@ -65,7 +65,7 @@ func (m *M) offCurveX() *big.Int {
 	}
 }
 
-var lamClasses = []string{"one", "two", "small", "minus_one", "random", "random"}
+var lamClasses = []string{"one", "two", "small", "minus_one", "random", "random", "mont_window"}
 
 func (m *M) lambda(class string) *big.Int {
 	switch class {
@@ -77,6 +77,13 @@ func (m *M) lambda(class string) *big.Int {
 		return big.NewInt(int64(3 + m.rng.Intn(1000)))
 	case "minus_one":
 		return new(big.Int).Sub(bigP, one)
+	case "mont_window": // Z whose Montgomery-form limbs lie in a boundary window
+		for {
+			w, _ := m.window()
+			if l := mulmod(w, rInvP, bigP); l.Sign() != 0 {
+				return l
+			}
+		}
 	default:
 		for {
 			l := m.randBig(bigP)
@@ -133,7 +140,7 @@ func (m *M) putIdentity(r int, kind int) {
 
 var scalarClasses = []string{"zero", "one", "two", "three", "minus_one", "minus_two", "half_up", "half_down",
 	"pow2", "pow2_255", "top_bit_set", "sparse", "dense", "limb_pattern", "near_n", "small", "random", "random",
-	"word_boundary", "word_structure"}
+	"word_boundary", "word_structure", "mont_window"}
 
 func (m *M) scalarOf(class string) *big.Int {
 	switch class {
@@ -193,6 +200,9 @@ func (m *M) scalarOf(class string) *big.Int {
 	case "word_boundary", "word_structure":
 		v, _ := m.wordScalar()
 		return v
+	case "mont_window": // the stored (Montgomery) limbs lie in a boundary window
+		w, _ := m.window()
+		return mulmod(new(big.Int).Mod(w, bigN), rInvN, bigN)
 	default:
 		return m.randBig(bigN)
 	}
@@ -213,6 +223,7 @@ func (m *M) putScalar(r int, class string) *big.Int {
 var (
 	cbrtExp = func() *big.Int { e := new(big.Int).Add(bigP, two); return e.Div(e, big.NewInt(9)) }() // p = 7 mod 9
 	rInvP   = new(big.Int).ModInverse(bigR, bigP)
+	rInvN   = new(big.Int).ModInverse(bigR, bigN)
 )
 
 // cbrt returns a cube root of a mod p, or nil.
